@@ -1300,6 +1300,34 @@ func ruleKasai(c *Ctx) {
 	ph, isPhi := lphi.(*ssa.Phi)
 	carry := isPhi && ph.Block() == L.Header
 	if carry {
+		// one carried value on one control-flow edge; merges inside the loop body (the
+		// post block of a counting loop collects the continue paths) are split per edge
+		var edgeOK func(e ssa.Value, pred, blk *ssa.BasicBlock, depth int) bool
+		edgeOK = func(e ssa.Value, pred, blk *ssa.BasicBlock, depth int) bool {
+			if p2, isP := e.(*ssa.Phi); isP && depth < 4 && p2.Block() != L.Header && L.Blocks[p2.Block()] && p2.Block() == pred {
+				for k2, e2 := range p2.Edges {
+					if !edgeOK(e2, p2.Block().Preds[k2], p2.Block(), depth+1) {
+						return false
+					}
+				}
+				return true
+			}
+			cs := fi.edgeConds(pred, blk)
+			el := fi.lin(e)
+			switch {
+			case el.eq(lnew.addc(-1)):
+				// requires l_new ≥ 1
+				return fi.proveLE0(linConst(1).sub(lnew), cs, nil, map[string]bool{}, 0)
+			case el.eq(lnew):
+				return fi.proveLE0(lnew, cs, nil, map[string]bool{}, 0)
+			case el.isConst() && el.c == 0:
+				// after rank 0 (restart) or when l_new ≤ 0
+				k0 := fi.lin(kLoad)
+				r0 := fi.proveLE0(k0, cs, nil, map[string]bool{}, 0) && fi.proveLE0(k0.scale(-1), cs, nil, map[string]bool{}, 0)
+				return r0 || fi.proveLE0(lnew, cs, nil, map[string]bool{}, 0)
+			}
+			return false
+		}
 		for k, e := range ph.Edges {
 			pred := ph.Block().Preds[k]
 			if !L.Blocks[pred] {
@@ -1308,26 +1336,7 @@ func ruleKasai(c *Ctx) {
 				}
 				continue
 			}
-			cs := fi.edgeConds(pred, ph.Block())
-			el := fi.lin(e)
-			switch {
-			case el.eq(lnew.addc(-1)):
-				// requires l_new ≥ 1
-				if !fi.proveLE0(linConst(1).sub(lnew), cs, nil, map[string]bool{}, 0) {
-					carry = false
-				}
-			case el.eq(lnew):
-				if !fi.proveLE0(lnew, cs, nil, map[string]bool{}, 0) {
-					carry = false
-				}
-			case el.isConst() && el.c == 0:
-				// after rank 0 (restart) or when l_new ≤ 0
-				k0 := fi.lin(kLoad)
-				r0 := fi.proveLE0(k0, cs, nil, map[string]bool{}, 0) && fi.proveLE0(k0.scale(-1), cs, nil, map[string]bool{}, 0)
-				if !r0 && !fi.proveLE0(lnew, cs, nil, map[string]bool{}, 0) {
-					carry = false
-				}
-			default:
+			if !edgeOK(e, pred, ph.Block(), 0) {
 				carry = false
 			}
 		}
@@ -1345,6 +1354,7 @@ func ruleInvert(c *Ctx) {
 	sa, inv := fn.Params[0], fn.Params[1]
 	okSt := false
 	var at *ssa.BasicBlock
+	var srcIA *ssa.IndexAddr
 	for _, b := range fn.Blocks {
 		for _, in := range b.Instrs {
 			st, ok := in.(*ssa.Store)
@@ -1366,28 +1376,16 @@ func ruleInvert(c *Ctx) {
 			if fi.lin(st.Val).eq(fi.lin(ia2.Index)) {
 				okSt = true
 				at = b
+				srcIA = ia2
 			}
 		}
 	}
 	c.check(okSt, "suffix.InvertSA:store", fn.Pos(), "sainv[sa[j]] = j", "InvertSA does not store sainv[sa[j]] = j")
 	cov := false
-	if at != nil {
+	if at != nil && srcIA != nil {
 		if l := fi.loopOf(at); l != nil {
-			for _, in := range l.Header.Instrs {
-				ph, ok := in.(*ssa.Phi)
-				if !ok || !isIntType(ph.Type()) {
-					continue
-				}
-				iff, isIf := l.Header.Instrs[len(l.Header.Instrs)-1].(*ssa.If)
-				if !isIf {
-					continue
-				}
-				stay := l.Blocks[l.Header.Succs[0]]
-				fs := fi.factsOf([]Cond{{iff.Cond, stay}})
-				if len(fs) == 1 && fs[0].Op == LE && fs[0].L.eq(fi.lin(ph).addc(2).sub(fi.lenOf(sa))) {
-					cov = true
-				}
-			}
+			// the loop visits every index of sa (range form or counting form)
+			cov = fullRangeStore(fi, srcIA)
 			lens := fi.proveAt(fi.lenOf(sa).sub(fi.lenOf(inv)), l.Header, nil) && fi.proveAt(fi.lenOf(inv).sub(fi.lenOf(sa)), l.Header, nil)
 			cov = cov && lens
 		}
